@@ -25,6 +25,7 @@ RULE = (
     'spaces, distinct sizes per letter, ellipsis rank 0-2, shared or per-leaf blocks, multi-leaf inputs; oracle '
     'np.einsum and the adjoint identity. non-trivial = letters not in canonical ij order, or an ellipsis, or a batch '
     'letter. distinct = distinct strings / recipes.'
+    ' Also (layer 2): the leaves of one pytree may have different dtypes (promotion judged per leaf).'
 )
 ASSUMPTIONS = [
     'numpy.einsum is the specification of einsum; alphabet {h,i,j,k}; explicit mode with exactly two operands',
